@@ -29,9 +29,23 @@ def run(c):
         "the monitor's reference normalisation (vc15.RefNorm) is written from the documentation of the settings with the PRECIS / IDNA / NFC "
         "libraries directly; for `auto` it decides plainly valid and plainly invalid addresses and leaves the rest (quoted local parts, "
         "unusual characters) to the coarse spelling equivalence; strconv.Atoi in the action grammar is modelled on unsigned decimal tokens",
+        "table.chain: the documentation says what happens to ONE value that a step's table does not hold; with several values at once the "
+        "monitor accepts both readings (the whole step decides / value by value): an acceptance is a violation when NO reading entitles the "
+        "sender, a refusal when EVERY reading entitles it; the Lean model mirrors the code (the whole step decides)",
+        "SASL PLAIN sessions of the identity family run with the endpoint's auth_map_normalize and the check's auth_normalize set to the same "
+        "setting, without auth_map; the credential store gives every account name its own password (C14 owns the authentication decision)",
     ]
     return c.finish(
-        rule="the three action directives are written in every documented form (bare reject / quarantine / ignore, reject|quarantine <code> "
+        rule="user_to_email / prepare_email backed by the REAL table.chain built through the configuration path (1-3 steps, step / optional_step, "
+        "static / single-valued / failing / identity / email_localpart step tables over one small pool of names: 0-3 values per key, values that are "
+        "keys of the same and of the next step), senders drawn from what the composition of the step tables gives the user, from what a step applied "
+        "more than once would give, and from the rest; reference = relational composition computed by the harness "
+        "(C15/envelope-sender-not-entitled, C15/entitled-sender-refused, C15/entitled-author-refused); SMTP sessions send AUTH PLAIN with every "
+        "kind of authorization identity (empty, identical, letter-case / NFD / width / A-label / U-label variant, another account, garbage) "
+        "against accounts that differ only in what the automatic normalisation folds, each with its own password and entitlements, under every "
+        "normalisation setting: the identity the check is shown must be the account whose password was verified "
+        "(C15/session-identity-not-the-authenticated-one) and its entitlements decide; "
+        "the three action directives are written in every documented form (bare reject / quarantine / ignore, reject|quarantine <code> "
         "[<enhanced code> [<text>]] with 4xx and 5xx codes, any text; ~1% forms that are no action: Init must refuse them as the model of the "
         "grammar says) and parsed by the real ParseActionDirective through config.Map; the monitor demands rejection / the quarantine flag by the "
         "WORD of the directive that the documentation assigns to the refusal (unauth_action, no_match_action, err_action), whatever reply is "
